@@ -63,3 +63,30 @@ fn c31_reserved_ids() {
     assert!(INITIAL == 3);
     assert!(TAG == 1u64 << 63 && ID_MASK == !TAG);
 }
+
+/// C11 / C30 (complete over offsets, ids, both representations): a name's location reads back exactly
+/// the span supplied -- same file id, start offset, and length equal to the name's text -- for every
+/// u32 start offset, every file id (bit 63 clear, != NONE); the text and the static/heap tag are untouched.
+// @verif prop=C11,C30 class=complete bound="none over (start offset: u32, file id: 63 bits, heap|static); name text fixed to 3 bytes" targets="Name::with_location,Name::location,TaggedFileId::pack,TaggedFileId::file_id,TaggedFileId::tag"
+#[kani::proof]
+fn c11_name_location_roundtrip() {
+    let raw: u64 = kani::any();
+    kani::assume(raw != 0 && raw & TAG == 0 && raw != FileId::NONE.id.get());
+    let file_id = FileId { id: NonZeroU64::new(raw).unwrap() };
+    let start: u32 = kani::any();
+    kani::assume(start <= u32::MAX - 3);
+    let span = SourceSpan { file_id, text_range: TextRange::at(start.into(), 3.into()) };
+    let heap: bool = kani::any();
+    let name = if heap { crate::Name::new_unchecked("abc") } else { crate::Name::new_static_unchecked("abc") };
+    assert!(name.location().is_none());
+    let located = name.with_location(span);
+    let got = located.location();
+    assert!(got == Some(span));
+    let got = got.unwrap();
+    assert!(got.file_id() == file_id && got.offset() == start as usize && got.end_offset() == start as usize + 3);
+    assert!(got.end_offset() - got.offset() == located.as_str().len()); // covers exactly the name's text
+    assert!(located.as_str().as_bytes() == b"abc");
+    assert!(located.as_static_str().is_some() == !heap);
+    kani::cover!(heap && start == u32::MAX - 3);
+    kani::cover!(!heap && raw == ID_MASK);
+}
